@@ -13,14 +13,17 @@ func init() {
 	register(&Prop{
 		ID:        "C34",
 		Level:     "other",
-		Technique: "sibling-agreement and dominance rules over kfake's ACL decision functions (facts at grant/deny sites), exact case-list tables for implied operations and pattern matching",
+		Technique: "sibling-agreement and dominance rules over kfake's ACL decision functions (facts at grant/deny sites), exact case-list tables for implied operations and pattern matching; struct-field coverage of the binding identity (add / delete filter), write-once rule for acl fields, who-may-call rule for the raw matchers",
 		Explanation: "(1) every decision method of clusterACLs that can grant from an ALLOW entry also consults DENY entries on a path that withholds the grant (deviant-sibling rule); " +
 			"(2) in clusterACLs.allowed a grant is recorded only for an entry for which resource, principal, host and operation all matched and after the DENY test, a matching DENY returns false immediately, and the result is the recorded grant; " +
 			"(2b) in clusterACLs.anyAllowed every grant is for a fully matching ALLOW entry that is the wildcard or passed the DENY-domination test, and the deny patterns are collected only from matching DENY entries; " +
 			"(3) allowedACL/anyAllowedACL return true when ACLs are disabled or the user is a superuser before any ACL lookup and otherwise return exactly the clusterACLs decision for principal(user) and the client host; " +
 			"(4) matchesOp: operation ALL or equality matches for both permission types, implied operations apply only to ALLOW entries and the implication table is exactly {Read,Write,Delete,Alter}->Describe, AlterConfigs->DescribeConfigs; " +
-			"(5) matchesResource/matchesPrincipal/matchesHost: literal equality or \"*\", prefix match with the ACL's name as the prefix, User:* and host * wildcards.",
-		NotDecided: "equivalence with Apache Kafka's authorizer over all ACL sets (value-level); that every request handler asks for the right operation/resource.",
+			"(5) matchesResource/matchesPrincipal/matchesHost: literal equality or \"*\", prefix match with the ACL's name as the prefix, User:* and host * wildcards; " +
+			"(6) binding identity (round 3): clusterACLs.add drops the new entry only under equality with a stored, unmodified entry on every field of the acl struct (whole-struct == or a conjunction naming each field, permission included) and otherwise appends it unconditionally; no field of an acl value is written anywhere in kfake outside a composite literal (a stored DENY cannot be turned into an ALLOW, a copy cannot be edited before a comparison); " +
+			"(7) clusterACLs.delete keeps exactly the entries for which filter.matches is false and installs that list; aclFilter.matches rejects only on a filter-field vs same-named entry-field mismatch (plus the MATCH pattern-kind arm), has such a rejection for every field of the acl struct, and returns true only as its last statement; " +
+			"(8) who-may-call: the raw matchers clusterACLs.allowed/anyAllowed are called only from allowedACL/anyAllowedACL (checked by (3)) or behind an explicit !isSuperuser fact, and are never taken as method values; authorizedOps sets the bit of the iterated op exactly under allowedACL(creq, resource, resourceType, op) over the whole operation list.",
+		NotDecided: "equivalence with Apache Kafka's authorizer over all ACL sets (value-level); that every request handler asks for the right operation/resource; the wildcard values of aclFilter (ANY / nil) and that the CreateACLs/persistence literals copy each request field into the same-named acl field; a conditional append in add is reported as undecided rather than analysed.",
 		Run:        runC34,
 	})
 }
@@ -36,6 +39,7 @@ func runC34(c *Ctx) {
 	c34wrappers(c, m)
 	c34matchesOp(c, m)
 	c34matchers(c, m)
+	runC34round3(c, m)
 }
 
 func selIs(e ast.Expr, suffix string) bool {
